@@ -117,7 +117,12 @@ def main(argv=None):
 
     if to_replay:
         log(f"[{prop}] {len(to_replay)} harness(es) with failed checks: extracting counterexamples, replaying natively")
-        tests = kani.extract_playback([h for h, _, _ in to_replay])
+        # counterexamples were printed by the verification run itself; re-run only the harnesses for which none was found
+        allout = "\n".join(out for _, _, _, out, _ in logs)
+        tests = kani.tests_from_output(allout, [h for h, _, _ in to_replay])
+        missing = [h for h, _, _ in to_replay if not tests.get(h.name)]
+        if missing:
+            tests.update(kani.extract_playback(missing))
         alltests = [t for h, _, _ in to_replay for t in tests.get(h.name, [])]
         res, out = kani.native_replay(alltests)
         with open(os.path.join(logdir, f"{prop}_{tier}_replay.log"), "w") as f:
